@@ -34,7 +34,29 @@ let time_eval (fn : string) (args : string list) : string =
     hex_of_z (tsCompare { secs = z_of_hex s1; nanos = z_of_hex n1 } { secs = z_of_hex s2; nanos = z_of_hex n2 })
   | _ -> raise Not_found
 
-let evaluators : (string -> string list -> string) list ref = ref [ rt_eval; time_eval ]
+let bytes_out (o : byte list outcome) : string =
+  match o with
+  | Ok b -> "ok " ^ hex_of_bytes b
+  | Err -> "err" | Panic -> "panic" | OutOfFuel -> "outoffuel"
+
+let codec_eval (fn : string) (args : string list) : string =
+  match fn, args with
+  | "ENC", [ sid; mid; v ] ->
+    let sch = Ctx.schema sid and m = nat_of_int (int_of_string mid) and v = Sexp.val_of_string v in
+    bytes_out (pulsar_marshal sch true m v) ^ " size=" ^ dec_of_n (msg_size sch m v)
+  | "ENCN", [ sid; mid; v ] ->
+    let sch = Ctx.schema sid and m = nat_of_int (int_of_string mid) and v = Sexp.val_of_string v in
+    bytes_out (pulsar_marshal sch false m v)
+  | "DEC", [ sid; mid; flags; b; init ] ->
+    let sch = Ctx.schema sid and m = nat_of_int (int_of_string mid) in
+    let discard = String.contains flags 'd' in
+    let init = if init = "-" then VNil else Sexp.val_of_string init in
+    (match pulsar_unmarshal sch discard m init (bytes_of_hex b) with
+     | Ok v -> "ok " ^ Sexp.string_of_val v
+     | Err -> "err" | Panic -> "panic" | OutOfFuel -> "outoffuel")
+  | _ -> raise Not_found
+
+let evaluators : (string -> string list -> string) list ref = ref [ rt_eval; time_eval; codec_eval ]
 
 let eval fn args =
   let rec go = function
